@@ -294,3 +294,6 @@ func (c *Conn) PeerClosed() bool { return c.peer.closed }
 
 // Broken reports whether the connection was cut.
 func (c *Conn) Broken() bool { return c.broken }
+
+// Conns returns every connection end created in this execution (harness use).
+func Conns() []*Conn { return w.conns }
